@@ -2,6 +2,7 @@ package authgrants
 
 import (
 	"errors"
+	"io"
 	"net"
 	"time"
 
@@ -38,11 +39,12 @@ var c06 struct {
 	callbackCalls                    int
 	targetConfirmed                  bool
 	targetAsked                      int
+	sendFailed                       bool
 }
 
 func c06Reset() {
 	c06.toDelegateConf, c06.toDelegateDenied, c06.forwarded, c06.callbackCalls, c06.targetAsked = 0, 0, 0, 0, 0
-	c06.approved, c06.targetConfirmed = false, false
+	c06.approved, c06.targetConfirmed, c06.sendFailed = false, false, false
 }
 
 func c06WriteIntentDenied(w interface{ Write([]byte) (int, error) }, reason string) error {
@@ -63,6 +65,7 @@ func c06WriteIntentCommunication(w interface{ Write([]byte) (int, error) }, i In
 	c06.forwarded++
 	c06.forwardedIntent = i
 	if verifBool("send-to-target-fails") {
+		c06.sendFailed = true
 		return errors.New("target connection broken")
 	}
 	return nil
@@ -252,3 +255,69 @@ func c06ReadIntentCommunication(r interface{ Read([]byte) (int, error) }) (Inten
 //verif:cover accepted;rejected
 //verif:timeout 400
 func VH_C06_forwarded_intent_redecodes_to_approved() { c18Full = false; c18IntentRT() }
+
+// ---- the target's answer as raw bytes through the real ReadConfOrDenial ----
+
+type c06WireConn struct {
+	c06Conn
+	b   []byte
+	off int
+}
+
+func (c *c06WireConn) Read(p []byte) (int, error) {
+	if c.off >= len(c.b) {
+		return 0, io.EOF
+	}
+	n := copy(p, c.b[c.off:])
+	c.off += n
+	return n, nil
+}
+
+var c06Wire *c06WireConn
+
+func c06SetUpWire(u core.URL, cb AdditionalVerifyCallback) (net.Conn, error) {
+	if err := cb(&certs.Certificate{}); err != nil {
+		return nil, err
+	}
+	return c06Wire, nil
+}
+
+// Whatever bytes the target connection delivers as its answer, the delegate is
+// told "confirmed" only if they are a well-formed confirmation message.
+//
+//verif:prop C06
+//verif:stub hop.computer/hop/authgrants.WriteIntentDenied = c06WriteIntentDenied
+//verif:stub hop.computer/hop/authgrants.WriteIntentConfirmation = c06WriteIntentConfirmation
+//verif:stub hop.computer/hop/authgrants.WriteIntentCommunication = c06WriteIntentCommunication
+//verif:replay none
+//verif:bounds one intent request (fields as in the 2-request harness), approval callback approves/denies, target reachable; the target's answer is an arbitrary byte string of length 0..4 (type byte over all 256 values, then arbitrary bytes) read by the real ReadConfOrDenial / AgMessage.ReadFrom
+//verif:cover confirmed;denied-by-target;garbled-answer;not-forwarded
+//verif:timeout 600
+func VH_C06_only_a_wellformed_confirmation_is_relayed_as_confirmation() {
+	n := verifPick("answer-len", 0, 1, 2, 3, 4)
+	c06.delegate = &c06Conn{name: "delegate"}
+	c06Wire = &c06WireConn{b: verifBytes("target-answer", n)}
+	c06.target = &c06Wire.c06Conn
+	p := &principalInstance{delegateConn: c06.delegate, checkIntent: c06CheckIntent, setUpTargetConn: c06SetUpWire}
+	c06Reset()
+	req := c06IntentReq("request")
+	err := p.doIntentRequestChecks(req)
+	verifAssert(err == nil, "C06: answering the delegate does not fail on a working delegate connection")
+	verifAssert(c06.toDelegateConf+c06.toDelegateDenied == 1, "C06: the delegate receives exactly one answer per request")
+	isConf := n >= 1 && c06Wire.b[0] == byte(IntentConfirmation)
+	if c06.forwarded == 0 {
+		verifCover("not-forwarded")
+		verifAssert(c06.toDelegateConf == 0, "C06: nothing is confirmed without forwarding")
+		return
+	}
+	verifAssert(c06.approved, "C06: an intent is forwarded only after the approval callback accepted it in this request (every request, not only the first)")
+	if c06.toDelegateConf == 1 {
+		verifCover("confirmed")
+		verifAssert(isConf, "C06: the delegate is told 'confirmed' only if the target's answer is a confirmation message (any other type byte or a truncated answer is a denial)")
+	} else if n >= 1 && c06Wire.b[0] == byte(IntentDenied) {
+		verifCover("denied-by-target")
+	} else {
+		verifCover("garbled-answer")
+	}
+	verifAssert(verifOr(!isConf, verifOr(c06.toDelegateConf == 1, c06.sendFailed)), "C06: a confirmation from the target reaches the delegate as a confirmation")
+}
